@@ -554,6 +554,7 @@ class AsyncClient(base_client.BaseClient):
         """Handle the Engine.IO connection event."""
         self.logger.info('Engine.IO connection established')
         self._transport_ended = False
+        self._binary_packet = None
         self.sid = self.eio.sid
         real_auth = await self._get_real_value(self.connection_auth) or {}
         for n in self.connection_namespaces:
@@ -562,10 +563,6 @@ class AsyncClient(base_client.BaseClient):
 
     async def _handle_eio_message(self, data):
         """Dispatch Engine.IO messages."""
-        if self._transport_ended:
-            # a message that was received before the transport ended, but is
-            # dispatched after the disconnection has already been processed
-            return
         if self._binary_packet:
             pkt = self._binary_packet
             if pkt.add_attachment(data):
@@ -583,7 +580,10 @@ class AsyncClient(base_client.BaseClient):
                 elif pkt.packet_type == packet.BINARY_ACK:
                     pkt.packet_type = packet.ACK
             if pkt.packet_type == packet.CONNECT:
-                await self._handle_connect(pkt.namespace, pkt.data)
+                if not self._transport_ended:
+                    await self._handle_connect(pkt.namespace, pkt.data)
+                # (a reply that is dispatched after the disconnection of its
+                # transport has been processed does not connect anything)
             elif pkt.packet_type == packet.DISCONNECT:
                 await self._handle_disconnect(pkt.namespace)
             elif pkt.packet_type == packet.EVENT:
